@@ -1,12 +1,12 @@
 CONSTANTS
   Prelude <- PreDecls
-  Fresh <- Fresh4
+  Fresh <- Fresh3
   PreScopes = {"_SB_"}
-  MaxProd = 3  MaxTables = 2  MaxDepth = 2
-  Decls = {"Alias", "External", "CreateField", "Name", "Scope", "Device", "Method0"}
+  MaxProd = 2  MaxTables = 1  MaxDepth = 2
+  Decls = {"Alias", "External", "CreateField", "Name", "Scope"}
   Forms = {"abs", "caret"}
   Values = {"const", "pkgref", "pkgmeth", "bufname", "bufcall", "bufop"}
-  Stmts = {"store", "call"}  MaxStmts = 1
+  Stmts = {}  MaxStmts = 0
   Devs = {"IndexFieldNamed", "AliasKeepsSourceName", "ExternalIsObject", "CreateFieldNotNamed", "PackageMethodRefInvoked", "VarPackageCountByte", "MatchOperatorBytes", "LoadTableSevenOperands", "IfBodyFlattened", "RelPathInTerm", "ValueNamesFromFinalPlace", "EmptyBufferInDeferred"}
   Excluded = {"D1", "D1b", "D2", "D2c", "D3", "D5", "D6", "D7", "D9", "IndexFieldNamed", "AliasKeepsSourceName", "ExternalIsObject", "CreateFieldNotNamed", "PackageMethodRefInvoked", "VarPackageCountByte", "MatchOperatorBytes", "LoadTableSevenOperands", "IfBodyFlattened", "RelPathInTerm", "ValueNamesFromFinalPlace", "EmptyBufferInDeferred", "InvisibleCallee", "MethodAsRef", "HiddenNameInDeferred", "BankFieldUnitInDeferred"}
   Emit = TRUE  Bug = ""
